@@ -32,6 +32,35 @@ FOCUS = {
 }
 
 
+# round 4: each agent is pointed at a region of the library (chosen from the repository's own layout) that is relevant to its property
+REGION = {
+    'C01': "pane/addons/numpy.py (array conversion: dtype handling, nested lists, scalars vs 0-d arrays) and, in pane/converters.py, TupleConverter and NestedSequenceConverter",
+    'C02': "in pane/converters.py: ScalarConverter, _BASIC_CONVERTERS, DatetimeConverter, PatternConverter; in pane/util.py: data_is_sequence",
+    'C03': "in pane/converters.py: PatternConverter, DatetimeConverter, NestedSequenceConverter, TupleConverter, StructConverter; pane/addons/numpy.py",
+    'C04': "pane/addons/numpy.py, NestedSequenceConverter and PatternConverter in pane/converters.py, and the stock condition builders in pane/annotations.py (val_range, len_range, shape, broadcastable)",
+    'C05': "pane/types.py (Range, ValueOrList, YAMLDocList and the other helper types), the into_data side of pane/addons/numpy.py, and the into_data methods of SequenceConverter / TupleConverter / StructConverter / DictConverter",
+    'C06': "pane/types.py (helper types), PatternConverter, DatetimeConverter and the path / Decimal / Fraction entries of the converter tables in pane/converters.py and pane/convert.py",
+    'C07': "the collect_errors methods of TupleConverter, StructConverter, SequenceConverter, DictConverter, NestedSequenceConverter in pane/converters.py, and the node classes in pane/errors.py",
+    'C08': "pane/errors.py (the print_error / __str__ methods of every node class) and the wording helpers in pane/util.py (list_phrase, pluralize, remove_article and friends)",
+    'C09': "pane/addons/numpy.py (in-place array operations), NestedSequenceConverter, DictConverter and PaneConverter.into_data / PaneBase.dict / __replace__ / __copy__",
+    'C10': "pane/util.py (KeyCache: eviction, maxsize, key function) and the generic-subclass cache in pane/classes.py (_make_subclass / __class_getitem__)",
+    'C11': "pane/util.py (flatten_union_args, type_union, replace_typevars) and UnionConverter.collect_errors / construct in pane/converters.py",
+    'C12': "the Tagged annotation class in pane/annotations.py and TaggedUnionConverter.into_data / __init__ / expected in pane/converters.py",
+    'C13': "the stock condition builders and combinators in pane/annotations.py (val_range, len_range, shape, broadcastable, Condition.__and__/__or__/__invert__, Condition.all/any, adjective_condition) and pane/addons/numpy.py",
+    'C14': "in pane/classes.py: _make_init, PaneBase.from_dict_unchecked, make_unchecked, __post_init__ handling, default / default_factory handling in PaneConverter; in pane/field.py: Field.has_default and friends",
+    'C15': "pane/field.py (Field, FieldSpec.make_field, the name-resolution parts) and PaneOptions / PaneConverter.into_data / collect_errors_struct / collect_errors_tuple in pane/classes.py",
+    'C16': "in pane/classes.py: _make_ord, _make_hash / _set_hash_none, __setattr__ / __delattr__, __replace__, __copy__ / __deepcopy__, __repr__ generation",
+    'C17': "pane/util.py (get_type_hints, replace_typevars, collect_typevars and friends) and _make_subclass / __class_getitem__ / PaneOptions.replace in pane/classes.py",
+    'C18': "ConverterHandlers and register_converter_handler in pane/convert.py, the order of the dispatch steps inside make_converter, and the handlers plumbing of SequenceConverter / DictConverter / TupleConverter / StructConverter",
+    'C19': "pane/io.py: write_json, write_yaml, from_json, from_yaml, from_yaml_all, _validate_file, and the dataclass IO methods in pane/classes.py (from_json / from_yaml / write_json / write_yaml / from_jsons / from_yamls)",
+    'C20': "pane/field.py: _split_field_name, _pairwise, _CONVERT_FNS and each per-style function, and the places in pane/classes.py / pane/field.py that call rename_field (FieldSpec.make_field, PaneBase.dict)",
+}
+FOCUS[4] = ("it lives in the region of the library named below and shows only under a narrow circumstance that a real user could still hit "
+            "(one pass or one direction only, one member of a family, a second call, an unusual but legal input or option combination). "
+            "REGION for this task: {region}. All three changes must be made inside that region; read it closely first and look for behaviour that the "
+            "existing tests do not pin down.")
+
+
 def main():
     rnd, wtroot, outroot, pdir = int(sys.argv[1]), sys.argv[2], sys.argv[3], sys.argv[4]
     os.makedirs(pdir, exist_ok=True)
@@ -56,7 +85,7 @@ The behavioural property under study (this is all you get; read the library's co
 Your task: produce THREE different source changes to the library (files under {wt}/pane/), each of which
   (a) still imports/compiles and leaves all 218 passing tests passing,
   (b) BREAKS the property above (a user relying on the property would be wrong for some inputs), and
-  (c) is SUBTLE: {FOCUS[rnd]} Prefer breaks that a reviewer skimming the diff would wave through (a plausible refactor, micro-optimisation, "simplification", defensive check, caching, or a fix for some other imagined problem). Avoid the most obvious edits (flipping a comparison in the main path, deleting a whole check that every input exercises). The three changes must touch different mechanisms (different functions / code paths). Keep each change small (typically 1-15 lines).
+  (c) is SUBTLE: {FOCUS[rnd].replace('{region}', REGION.get(pid, 'anywhere')) if rnd == 4 else FOCUS[rnd]} Prefer breaks that a reviewer skimming the diff would wave through (a plausible refactor, micro-optimisation, "simplification", defensive check, caching, or a fix for some other imagined problem). Avoid the most obvious edits (flipping a comparison in the main path, deleting a whole check that every input exercises). The three changes must touch different mechanisms (different functions / code paths). Keep each change small (typically 1-15 lines).
 
 For each change k in 1, 2, 3 write into {out}/k/ :
   - patch.diff : output of `git -C {wt} diff` for that change alone (it must apply with `git apply` to a clean checkout of HEAD),
